@@ -234,9 +234,6 @@ func runScenario(d desc) (res result) {
 	tokens := 0
 	held := map[int]bool{}
 	waitTokens := func(want int) {
-		if d.UseSC {
-			return
-		}
 		deadline := time.Now().Add(5 * time.Second)
 		for fasthttp.VerifTimeoutTokens(s) != want {
 			if time.Now().After(deadline) {
@@ -285,8 +282,8 @@ func runScenario(d desc) (res result) {
 				ver = "HTTP/1.0"
 				extra = "Connection: keep-alive\r\n"
 			}
-			willRun := !d.UseSC && tokens < d.Cap
-			if e.RKind == "slow" && willRun && !d.UseSC {
+			willRun := tokens < d.Cap
+			if e.RKind == "slow" && willRun {
 				held[e.ID] = true
 				tokens++
 			}
@@ -406,7 +403,7 @@ func run(d desc) hlib.Case {
 			}
 			reqs[e.Conn] = append(reqs[e.Conn], hlib.Tuple(m, hlib.App("mkRq", hlib.Bool(e.Method == "HEAD"), hlib.Bool(!e.V10), "false"), pk.HexS(smsg)))
 			trace = append(trace, hlib.App("LReqStart", c))
-			has := tokens < d.Cap && !d.UseSC
+			has := tokens < d.Cap
 			switch e.RKind {
 			case "fast":
 				events = append(events, hlib.App("EvReq", c, hlib.App("KFast", hlib.Z(int64(e.Val.Status)), pk.Hex(e.Val.Body))))
@@ -471,10 +468,7 @@ func run(d desc) hlib.Case {
 		wiresC = append(wiresC, hlib.List(ws))
 	}
 	cfg := hlib.App("mkCfg", pk.HexS(serverName(d.Cfg)), hlib.Bool(d.Cfg.NoDate), hlib.Bool(d.Cfg.NoCT), hlib.Bool(d.Cfg.NoNorm), "false")
-	semCap := d.Cap
-	if d.UseSC {
-		semCap = 0 // s.concurrencyCh is nil until Serve has run
-	}
+	semCap := d.Cap // since /repo 0e1d77b the semaphore is created by ServeConn as well as by Serve
 	coq := hlib.App("C16Trace", cfg, hlib.Nat(d.Cap), hlib.Nat(semCap), pk.HexS(fixedDate), pk.HexS(d.TMsg), hlib.Z(int64(tcode)),
 		hlib.List(events), hlib.List(trace), hlib.List(reqsC), hlib.List(wiresC), hlib.Nat(res.maxrun))
 	sig := d.Tag
@@ -651,11 +645,13 @@ func corpus() []desc {
 	// a connection is closed and its ctx re-pooled while a late handler of another connection still runs
 	out = append(out, desc{Cap: 4, TMsg: "t/o", Tag: "pool", Events: []evD{{Kind: "open"}, {Kind: "open"}, slow(0, "GET", 0), fast(1, "GET", "one"), {Kind: "close", Conn: 1},
 		{Kind: "open", Pick: 1}, fast(2, "GET", "two"), late(0, lw("late")), fast(2, "GET", "three"), fast(0, "GET", "four")}})
-	// a server that only ever ran ServeConn: the semaphore channel is nil, every wrapped call is refused
+	// a server that only ever ran ServeConn (a finding until /repo 0e1d77b: the semaphore did not exist, every call got 429)
 	for _, m := range []string{"GET", "HEAD"} {
-		out = append(out, desc{Cap: 8, TMsg: "t/o", Tag: "serveconn-only", Key: "timeouthandler-serveconn-only-429", UseSC: true,
-			Events: []evD{{Kind: "open"}, fast(0, m, "hello"), fast(0, "GET", "again")}})
+		out = append(out, desc{Cap: 8, TMsg: "t/o", Tag: "serveconn-only", UseSC: true,
+			Events: []evD{{Kind: "open"}, fast(0, m, "hello"), slow(0, m, 0), fast(0, "GET", "again"), late(0, lw("late")), fast(0, "GET", "end")}})
 	}
+	out = append(out, desc{Cap: 1, TMsg: "t/o", Tag: "serveconn-only", UseSC: true,
+		Events: []evD{{Kind: "open"}, slow(0, "GET", 0), fast(0, "GET", "refused"), late(0, lw("late")), fast(0, "GET", "served")}})
 	for i := range out {
 		out[i] = launch(out[i])
 	}
